@@ -452,6 +452,22 @@ def run(ctx) -> None:
         rep.add("C14.R4", f"{nf.qname}:single-output-answer-verbatim", okn, nf.loc(), whyn)
 
     check_every_provided_value_seeded(ctx, "C14.R4")
+    # the pause names the keys a human can answer under: the interrupt's data outputs — never its ordering-only emit names
+    n_pi = 0
+    for f_ in db.funcs_in("runners.async_.executors.interrupt_node"):
+        for pc in [c for c in walk_local(f_.node) if isinstance(c, ast.Call) and (dotted(c.func) or "").split(".")[-1] == "PauseInfo"]:
+            n_pi += 1
+            wrong = None
+            for k in pc.keywords:
+                if k.arg not in ("output_param", "output_params"):
+                    continue
+                if any(isinstance(z, ast.Attribute) and z.attr == "outputs" for z in ast.walk(k.value)):
+                    wrong = wrong or k
+                elif not any(isinstance(z, ast.Name) and any("data_outputs" in src(getattr(d_, "value", None) or ast.Constant("")) for d_ in db.local_defs(f_).get(z.id, [])) or isinstance(z, ast.Attribute) and z.attr == "data_outputs" for z in ast.walk(k.value)):
+                    wrong = wrong or k
+            rep.add("C14.R4", f"{f_.qname}:answer-keys-are-data-outputs", wrong is None, f"{f_.module.rel}:{(wrong.value if wrong else pc).lineno}", "the pause names the interrupt's data outputs as answer keys" if wrong is None else f"'{wrong.arg}={src(wrong.value)[:60]}' takes the answer keys from all outputs: an interrupt that declares emit= reports its ordering signal as a key to answer under (response_keys asks the human for a value no one can supply)")
+    if n_pi < 1:
+        raise AnalysisError("PauseInfo construction of the interrupt executor not found")
 
     # ---- R10 --------------------------------------------------------------------
     check_resume_bypasses_cache(ctx, "C14.R10")
